@@ -4,6 +4,11 @@ Outcome: true | false | repo_exception (innermost frame inside /repo/src) | harn
 """
 from __future__ import annotations
 
+import os
+
+# the checkout under analysis: /repo, or the scratch copy VERIF_REPO points at
+REPO_SRC = (os.environ.get("VERIF_REPO") or "/repo").rstrip("/") + "/src/"
+
 import importlib
 import json
 import sys
@@ -17,11 +22,11 @@ def classify(module: str, func: str, args: list) -> dict:
         r = fn(*args)
     except Exception as e:  # noqa: BLE001
         tb = traceback.extract_tb(e.__traceback__)
-        repo_frames = [f for f in tb if f.filename.startswith("/repo/src/")]
+        repo_frames = [f for f in tb if f.filename.startswith(REPO_SRC)]
         detail = "".join(traceback.format_exception_only(type(e), e)).strip()
         if type(e).__name__ == "RepoFailure":
             return {"outcome": "false", "detail": detail}
-        if repo_frames and tb[-1].filename.startswith("/repo/src/"):
+        if repo_frames and tb[-1].filename.startswith(REPO_SRC):
             f = repo_frames[-1]
             return {
                 "outcome": "repo_exception",
